@@ -67,5 +67,15 @@ CLAIMED.update({
             "loop invariants + variants over a nondeterministic environment contract (pyvc + z3)", "DESIGN.md 3 (C12), 9"),
 })
 
+CLAIMED.update({
+    "C17": ("proof", "the counter generator is verified as a state machine (base case + inductive step for every (stop, start) and "
+            "every position: next value = v+1 or start after stop, always within [start, stop]); the driver instantiates it with "
+            "(65535, 1); a window lemma over the closed form shows any two draws fewer than 65535 apart differ (also across the wrap); "
+            "every constructor of a connected packet (SendUnitData, read/write fragment follow-ups) is proved to take exactly one "
+            "fresh draw and to put it first in the connected data. Adjacency of *sent* packets then follows because every packet "
+            "object is sent at most once; that last step is argued in DESIGN.md 9 and not machine-checked",
+            "state-machine induction + lemmas over contracts (pyvc + z3)", "DESIGN.md 3 (C17), 9"),
+})
+
 if __name__ == "__main__":
     main()
